@@ -431,8 +431,8 @@ where
                 y_powers[n].invert()
             };
 
-            let a_lo_offset = a_lo.iter().map(|s| s * y_n_inverse).collect::<Vec<Scalar>>();
-            let a_hi_offset = a_hi.iter().map(|s| s * y_powers[n]).collect::<Vec<Scalar>>();
+            let a_lo_offset = Zeroizing::new(a_lo.iter().map(|s| s * y_n_inverse).collect::<Vec<Scalar>>());
+            let a_hi_offset = Zeroizing::new(a_hi.iter().map(|s| s * y_powers[n]).collect::<Vec<Scalar>>());
 
             let d_l = if let Some(seed_nonce) = statement.seed_nonce {
                 Zeroizing::new(
